@@ -83,7 +83,12 @@ def worker(spec):
         # 2. find the grammar whose documented usage no longer compiles
         gl = spec['grammars']
         if len(gl) > 1:
-            outs = [worker(dict(spec, grammars=[gj], explicit_inputs=[spec['explicit_inputs'][i]] if 'explicit_inputs' in spec else None) if 'explicit_inputs' in spec else dict(spec, grammars=[gj])) for i, gj in enumerate(gl)]
+            rtc = set(spec.get('runtime_ctor', ()))
+            def one(i, gj):
+                s1 = dict(spec, grammars=[gj], runtime_ctor=([0] if i in rtc else []))      # the grammar keeps its construction mode when tried alone
+                if 'explicit_inputs' in spec: s1['explicit_inputs'] = [spec['explicit_inputs'][i]]
+                return s1
+            outs = [worker(one(i, gj)) for i, gj in enumerate(gl)]
             m = {'counts': collections.Counter(), 'viol': [], 'samples': [], 'distinct': [], 'incon': []}
             for o in outs:
                 for k, v in o['counts'].items(): m['counts'][k] += v
@@ -282,7 +287,8 @@ def judge_c09(spec, gs, tbs, inputs, diags, dumps, maps, tdiffs, byk, jobs, info
                 if not ex.ok: out['distinct'].append(common.sha(g.key(), data)[:12])
                 if r.stream != ex.stream:
                     viol(out, g, data, mode, '%s input: stream text %r, expected %r' % (kind, r.stream[:200], ex.stream[:200]), observed=r.stream, expected=ex.stream)
-                if mode == 4 and kind == 'syntax' and ex.res.errors:
+                # (with regex terms the longest-match lexer has to read until its automaton dies, possibly well past the lexeme: the bound below is exact for char/string terms only)
+                if mode == 4 and kind == 'syntax' and ex.res.errors and not any(t.kind == 'r' for t in g.terms):
                     p = ex.res.errors[0]
                     if p < len(ex.lex.toks):
                         limit = ex.lex.toks[p][1] + ex.lex.toks[p][2]      # one look-ahead byte after the offending lexeme
